@@ -291,6 +291,29 @@ def check_hgmm(run, tier, rng, reps=None, only_groups=False):
     run.sample(dict(kind="hgmm", last=what, K=K))
 
 
+def refit_sequence_probe(run, rng):
+    """one HierarchicalGaussianMixture object fitted on 2-d data and then on 5-d data: the second fit must obey the rules of the
+    second data set (default minimum child size 2 * n_features = 10), not anything remembered from the first"""
+    from tempest.cluster import HierarchicalGaussianMixture
+    for t in range(3):
+        nr = np.random.RandomState(rng.randrange(2 ** 31))
+        m = HierarchicalGaussianMixture(n_init=1, max_iterations=1000, min_points=None, threshold_modifier=1.0, covariance_type="full", normalize=False)
+        X2 = np.vstack([nr.randn(60, 2) * 0.3, nr.randn(60, 2) * 0.3 + 6.0])
+        m.fit(X2, np.ones(len(X2)))
+        k_small = rng.choice([5, 6, 8])  # between 2*2 and 2*5 - 1
+        X5 = np.vstack([nr.randn(120, 5) * 0.3, nr.randn(k_small, 5) * 0.05 + 12.0])
+        m.fit(X5, np.ones(len(X5)))
+        lab = np.asarray(m.labels_)
+        K = m.n_clusters_
+        sizes = np.bincount(lab[(lab >= 0) & (lab < K)], minlength=K)
+        run.case(key=("refit-sequence", t), nontrivial=True)
+        if lab.min() < 0 or lab.max() >= K:
+            run.fail("training-label-out-of-range", f"second fit: labels_ range [{lab.min()},{lab.max()}] for K={K}", first_dim=2, second_dim=5)
+        if K > 1 and sizes.min() < 10:
+            run.fail("child-below-min-points", f"a clusterer first fitted on 2-d data accepts, on 5-d data, a split with cluster sizes {sizes.tolist()} "
+                     f"(default minimum 2 * n_features = 10)", first_dim=2, second_dim=5, small_group=k_small)
+
+
 def main(tier, seed):
     run = Run(PID, tier, seed)
     run.rule = ("data sets d in {1,2,3,4,6}, n from 2d to 200: separated / overlapping / with a flat direction / duplicated "
@@ -314,6 +337,7 @@ def main(tier, seed):
     try:
         check_gmm(run, tier, rng)
         check_hgmm(run, tier, rng)
+        refit_sequence_probe(run, rng)
     except Exception:
         import traceback
         run.broken.append(("harness-exception", traceback.format_exc()[-1500:]))
